@@ -322,13 +322,17 @@ def priority_case(args):
             op, names = later
             r = mkrepo(9, names)
             repos.append(r)
-            if op == "prepend":
+            if op == "promote":  # an existing repository (the last one) is moved to the front by prepending it again
+                repos.pop()
+                env.prepend_repo(repos[-1])
+                order = [len(repos) - 1] + order
+            elif op == "prepend":
                 env.prepend_repo(r)
                 order = [len(repos) - 1] + order
             else:
                 env.append_repo(r)
                 order = order + [len(repos) - 1]
-        spec = list(repos_spec) + ([later[1]] if later else [])
+        spec = list(repos_spec) + ([later[1]] if later and later[0] != "promote" else [])
         for n, fn in (("ca", "fa"), ("cb", "fb"), ("cz", None)):
             want_i = next((i for i in order if n in spec[i]), None)
             got = env.get_cluster(n)
@@ -348,7 +352,7 @@ def priority_case(args):
             from ..fixtures import c18fx as fx
 
             getattr(fx, fn)(1)
-            idx = 9 if (later and want_i == len(repos) - 1) else want_i
+            idx = 9 if (later and later[0] != "promote" and want_i == len(repos) - 1) else want_i
             if not os.path.isdir(os.path.join(top, "r%d_%s" % (idx, n), "d")):
                 out["violations"].append(("priority|%s|stored-elsewhere" % ("after-" + later[0] if later else "static"),
                                           "a call in cluster %s did not store into the first repository defining it" % n, {"priority": [repos_spec, later, alias]}))
@@ -385,6 +389,8 @@ def run(ctx):
             ptasks.append((spec, None))
             ptasks.append((spec, None, "suffix"))
             ptasks.append((spec, None, "swap"))
+            if n >= 2:
+                ptasks.append((spec, ("promote", ())))
             if n <= 2:
                 for op in ("prepend", "append"):
                     for names in subsets[1:]:
